@@ -8,8 +8,8 @@ import (
 	"crypto/rsa"
 	"crypto/x509"
 	"fmt"
-	"sync"
 	"runtime/debug"
+	"sync"
 	"time"
 
 	"google.golang.org/protobuf/proto"
